@@ -729,3 +729,27 @@ K("builder.canonicalize_one_ok", ["C16"], BUILDER, "builder.rs", "canonicalize_o
   bounded="1 input vertex, accepting model (the Err plumbing: builder.canonicalize_one / builder.canonicalize_vertices, thorough tier)",
   obligations=["same-length", "identity-kept", "coords-from-model", "untouched-axes"],
   claim="canonicalize_vertices on one vertex, any coordinate and any periodic domain: the vertex always goes through the model and keeps UUID and data")
+
+# C04: the artefact filter of the brute-force violation finder is confined to D >= 4 (V-slice of the guard)
+DVAL = "src/core/util/delaunay_validation.rs"
+V("bruteforce_artifact_guard", ["C04"], [
+    dict(kind="slice", file=DVAL, anchor=r"\bfn\s+validate_cell_delaunay\b", name="slice_artifact_guard", generics="<const D: usize>",
+         stmt=r"if (?P<expr>D >= [^{]*?)\{\s*let is_artifact", params="", ret="bool", result="artifact_filter_applies",
+         contract=dict(ensures=["r == (D >= 4)", "D <= 3 ==> !r"])),
+], claim="validate_cell_delaunay (brute-force finder): the both-positive artefact filter is only consulted for D >= 4, so in D <= 3 every INSIDE verdict of the robust in-sphere predicate is reported "
+         "(V-slice of the guard expression; the filter's body and the predicate are not under contract)",
+   mutant=dict(file=DVAL, old="                if D >= 4 {\n                    let is_artifact", new="                if D >= 3 {\n                    let is_artifact",
+               desc="brute-force artefact filter widened to D >= 3"))
+
+# ======================================================================================
+# C01 : the certification gate of batch construction (retry wrapper, K-callee)
+# ======================================================================================
+K("construct.retry_gate", ["C01"], DT, "dt_build.rs", "construction_retry_gate_contract", "K-callee",
+  [fn(DT, "build_with_shuffled_retries")], timeout=1500, no_playback=True,
+  assumed=["build_with_kernel_inner_seeded (stub): returns SOME candidate (its Err outcomes are not exercised: the wrapper formats them with Display, which does not fit in CBMC); "
+           "is_delaunay_property_only (stub): pure, any verdict; shuffle_vertices / construction_shuffle_seed (stubs: StdRng / hashing not modelled); format!, env::var_os stubbed"],
+  bounded="1 shuffled retry, empty vertex slice (the wrapper never looks at the vertices itself)",
+  obligations=["gate-consulted", "ok-is-certified-candidate", "ok-is-last-built", "retries-before-err"],
+  claim="DelaunayTriangulation::build_with_shuffled_retries: Ok is returned only for the candidate that the brute-force Delaunay gate accepted (and that was built last); a rejected candidate leads to shuffled retries, then Err",
+  mutant=dict(file=DT, old="            Ok(candidate) => match crate::core::util::is_delaunay_property_only(&candidate.tri.tds)\n            {\n                Ok(()) => return Ok(candidate),\n                Err(err) => format!(\"Delaunay property violated after construction: {err}\"),\n            },",
+              new="            Ok(candidate) => return Ok(candidate),", desc="first candidate returned without consulting the Delaunay gate"))
